@@ -39,6 +39,42 @@ def _sig(a, frm, to):
     return (a.domain, ren(t), cnorm(ren(a.v)), g, tuple(a.pyguards))
 
 
+def burst2beat_widths(ctx, rid, fx=None):
+    """AXIBurst2Beat register widths cover the AXI-legal range (shared with C09: AXI2AXILite / AXI2Wishbone split every burst with
+    this module, a narrow offset register sends the late beats of a long burst to the wrong addresses)."""
+    if fx is None:
+        fx = fx_of(ctx, AF, "AXIBurst2Beat")
+    # ---- U4 widths
+    axd = ctx.mod(AF).func("ax_description")
+    lenw = None
+    for n in ast.walk(axd):
+        if isinstance(n, ast.Assign) and norm(n.targets[0]) == "len_width" and isinstance(n.value, ast.Subscript) and isinstance(n.value.value, ast.Dict):
+            try:
+                lenw = max(const_fold(n.value.value).values())
+            except ValueError:
+                pass
+    ctx.ob(rid, AF, "ax_description", "len field widths are literals", lenw is not None, "len_width is no longer a literal table", axd)
+
+    def width(reg):
+        d = fx.decl.get(reg)
+        if not d or d[0] != "Signal" or not d[1].args:
+            return None
+        try:
+            v = const_fold(d[1].args[0])
+        except ValueError:
+            return None
+        if isinstance(v, tuple) and len(v) == 2:
+            return int(v[0]), bool(v[1])
+        return (int(v), False) if isinstance(v, int) else None
+    NEED = [("beat_count", lenw or 8, False, f"counts up to len ({lenw} bits)"), ("beat_size", 8, False, "holds 1 << size, size <= 7"),
+            ("beat_offset", 13, True, "byte offsets 0..4095 inside a 4KB page, negative after a WRAP"), ("beat_wrap", 11, False, "len << size, len <= 15 for WRAP")]
+    for reg, bits, signed, why in NEED:
+        w = width(reg)
+        ok = w is not None and w[0] >= bits and (w[1] or not signed)
+        ctx.ob(rid, AF, "AXIBurst2Beat", f"{reg}: {'signed, ' if signed else ''}>= {bits} bits", ok,
+               "" if ok else f"`{reg}` is declared {w}: {why}; a legal burst overflows it and the beat addresses/count wrap", fx.decl.get(reg, (0, 0))[1] or 0)
+
+
 def run(ctx):
     ctx.rule("U1", "Burst2Beat: count/offset move only under beat valid & ready; zeroed on last; burst consumed only at beat ready & "
                    "last; offset advances only for INCR/WRAP with capability; wrap subtraction later than the increment; "
@@ -58,35 +94,7 @@ def run(ctx):
     # ================================================================ U1
     fx = fx_of(ctx, AF, "AXIBurst2Beat")
     fail_closed(ctx, fx, "AXIBurst2Beat")
-    # ---- U4 widths
-    axd = ctx.mod(AF).func("ax_description")
-    lenw = None
-    for n in ast.walk(axd):
-        if isinstance(n, ast.Assign) and norm(n.targets[0]) == "len_width" and isinstance(n.value, ast.Subscript) and isinstance(n.value.value, ast.Dict):
-            try:
-                lenw = max(const_fold(n.value.value).values())
-            except ValueError:
-                pass
-    ctx.ob("U4", AF, "ax_description", "len field widths are literals", lenw is not None, "len_width is no longer a literal table", axd)
-
-    def width(reg):
-        d = fx.decl.get(reg)
-        if not d or d[0] != "Signal" or not d[1].args:
-            return None
-        try:
-            v = const_fold(d[1].args[0])
-        except ValueError:
-            return None
-        if isinstance(v, tuple) and len(v) == 2:
-            return int(v[0]), bool(v[1])
-        return (int(v), False) if isinstance(v, int) else None
-    NEED = [("beat_count", lenw or 8, False, f"counts up to len ({lenw} bits)"), ("beat_size", 8, False, "holds 1 << size, size <= 7"),
-            ("beat_offset", 13, True, "byte offsets 0..4095 inside a 4KB page, negative after a WRAP"), ("beat_wrap", 11, False, "len << size, len <= 15 for WRAP")]
-    for reg, bits, signed, why in NEED:
-        w = width(reg)
-        ok = w is not None and w[0] >= bits and (w[1] or not signed)
-        ctx.ob("U4", AF, "AXIBurst2Beat", f"{reg}: {'signed, ' if signed else ''}>= {bits} bits", ok,
-               "" if ok else f"`{reg}` is declared {w}: {why}; a legal burst overflows it and the beat addresses/count wrap", fx.decl.get(reg, (0, 0))[1] or 0)
+    burst2beat_widths(ctx, "U4", fx)
     prio(ctx, "PRIO", fx, "AXIBurst2Beat")
     H = B.from_expr("ax_beat.valid & ax_beat.ready")
     for reg in ("beat_count", "beat_offset"):
